@@ -1122,6 +1122,7 @@ pub fn c10_big_records(tag: &str) -> Vec<Vec<u8>> {
         "hundred-thousand" => (0..100_001usize).map(|i| long_record(3 + i % 5, i as u64)).collect(),
         "repeating" => crate::vecs::repeating_records(),
         "long-records" => (0..12u64).map(|i| long_record(20_000, 100 + i)).collect(),
+        "very-long-records" => vec![long_record(40, 1), long_record(100_050, 2), long_record(7, 3), long_record(250_017, 4), long_record(1_000_001, 5)],
         _ => panic!("unknown record set"),
     }
 }
@@ -1208,6 +1209,11 @@ pub fn c10_configs(ctx: &mut Ctx) {
     for (mm, w, threads) in [(2usize, 0usize, 3usize), (2, 3, 16)] {
         if sh.mine() {
             c10_free(ctx, &MinCase { threads, w, m: mm, records: c10_big_records("seventy-thousand") }, "seventy-thousand");
+        }
+    }
+    for (mm, w, threads) in [(3usize, 4usize, 2usize), (7, 0, 3), (7, 12, 16)] {
+        if sh.mine() {
+            c10_free(ctx, &MinCase { threads, w, m: mm, records: c10_big_records("very-long-records") }, "very-long-records");
         }
     }
     let longs: Vec<Vec<u8>> = (0..12u64).map(|i| long_record(20_000, 100 + i)).collect();
@@ -1301,6 +1307,16 @@ pub fn c05_record_set(tag: &str) -> Vec<Vec<u8>> {
             v.extend(gen(6));
             v
         }
+        // records beyond 100 000 and 1 000 000 bases in the middle and at the end, short ones before and between
+        "long-inside" => {
+            let mut v = gen(3);
+            v.push(crate::iters::long_input(100_001, 21));
+            v.extend(gen(5).into_iter().skip(3));
+            v.push(crate::iters::long_input(250_000, 22));
+            v.push(b"ACGTA".to_vec());
+            v.push(crate::iters::long_input(1_000_001, 23));
+            v
+        }
         _ => panic!("unknown record set {tag}"),
     }
 }
@@ -1381,7 +1397,7 @@ fn c05_config(ctx: &mut Ctx, set: &str, records: &[Vec<u8>], k: usize, container
 }
 
 pub fn c05_lattice(ctx: &mut Ctx) {
-    let sets = ["one", "two", "five", "thirty-seven", "five-hundred", "long-first", "five-thousand", "repeating"];
+    let sets = ["one", "two", "five", "thirty-seven", "five-hundred", "long-first", "five-thousand", "repeating", "long-inside"];
     let limits = [1usize, 2, 7, 100, 4usize << 30];
     let containers = ["fasta", "fasta-w1", "fasta-w3", "fasta-w60", "fastq", "fasta-gz", "fastq-gz"];
     let delims = [" ", ",", "\t", "::"];
@@ -1411,7 +1427,7 @@ pub fn c05_lattice(ctx: &mut Ctx) {
     }
     for set in sets {
         let recs = c05_record_set(set);
-        let k = if set == "long-first" { 2 } else { 3 };
+        let k = if set == "long-first" || set == "long-inside" { 2 } else { 3 };
         // threads x limit x writer
         for threads in 1..=16usize {
             if set == "five-thousand" && !thorough && ![1usize, 2, 7, 16].contains(&threads) {
@@ -1420,7 +1436,10 @@ pub fn c05_lattice(ctx: &mut Ctx) {
             for writer in ["mmap", "batch"] {
                 for &limit in &limits {
                     for container in containers {
-                        if set == "long-first" && container == "fasta-w1" {
+                        if (set == "long-first" || set == "long-inside") && container == "fasta-w1" {
+                            continue;
+                        }
+                        if set == "long-inside" && !thorough && !(threads <= 2 || threads == 16) {
                             continue;
                         }
                         // records without bases are well-formed in FASTA only
